@@ -25,6 +25,8 @@ import (
 	"math/rand/v2"
 	"net"
 	"net/netip"
+	"os"
+	"slices"
 	"strings"
 	"time"
 
@@ -51,21 +53,34 @@ func main() {
 	r.Rule = "mw: random global/profile access configurations (overlapping allowed/blocked subnets and ASNs, " +
 		"name rules from the grammar dom | ||dom^ | * with @@, $important, $dnstype) and requests (addresses at " +
 		"prefix boundaries, v4/v6/4in6, names equal to / below / above / beside rule domains, root, bad ECS, every " +
-		"device-finder result) through the real middleware, the Lean model and an oracle written from the property " +
+		"device-finder result; profiles and devices with filtering, query log and IP log switched off, deleted, other blocking modes, " +
+		"linked/dedicated addresses, authentication; every protocol) through the real middleware, the Lean model and an oracle written from the property " +
 		"statement; api: the access package called directly (thorough: exhaustive overlap scope); stack: the " +
 		"production handler stack with counting fakes. A case is non-trivial when it contains a blocked and a " +
 		"served request; distinct = distinct canonical op logs"
 	m := hlib.StartModel(o.Model, "C10")
 	defer m.Close()
 
-	mwCampaign(o, r, m)
-	tableCampaign(r, m)
-	apiCampaign(o, r, m)
-	stackCampaign(o, r, m)
-	seededCases(r, m)
-	oneCharPatternCase(r)
-	geoCampaign(o, r, m)
-	wireCampaign(o, r, m)
+	// VERIF_C10_CAMPAIGNS=mw,stack,… restricts a run to some campaigns (debugging aid; the check runs all).
+	only := os.Getenv("VERIF_C10_CAMPAIGNS")
+	on := func(name string) bool { return only == "" || slices.Contains(strings.Split(only, ","), name) }
+	for _, cp := range []struct {
+		name string
+		run  func()
+	}{
+		{"mw", func() { mwCampaign(o, r, m) }},
+		{"table", func() { tableCampaign(r, m) }},
+		{"api", func() { apiCampaign(o, r, m) }},
+		{"stack", func() { stackCampaign(o, r, m) }},
+		{"seeded", func() { seededCases(r, m) }},
+		{"onechar", func() { oneCharPatternCase(r) }},
+		{"geo", func() { geoCampaign(o, r, m) }},
+		{"wire", func() { wireCampaign(o, r, m) }},
+	} {
+		if on(cp.name) {
+			cp.run()
+		}
+	}
 
 	r.ModelOps = len(m.Log)
 	r.Finish()
@@ -257,8 +272,11 @@ type request struct {
 	// ecsLoc is the location of the ECS subnet address: GeoIP answers per
 	// address, and the access decision must use the client's location only.
 	ecsLoc *geoip.Location
-	ecs    int    // 0 none, 1 well-formed, 2 malformed
-	dev    string // nil | empty | auth | unk | err | ok:<k>
+	ecs    int // 0 none, 1 well-formed, 2 malformed
+	// dev is the device finder's result: nil | empty[:<flags>] | auth | unk | err | ok:<k>[:<flags>].
+	// The flags name the switches of the profile and device records that differ
+	// from the usual (see attrFlags): the access decision must not depend on any.
+	dev string
 	// badDevID adds a dnsmasq CPE-ID option that is not a valid device ID: the
 	// real device finder of a plain-DNS server fails on it.
 	badDevID bool
@@ -367,6 +385,120 @@ func addrArgs(ip netip.Addr) string {
 }
 
 func prefArgs(p netip.Prefix) string { return fmt.Sprintf("%s %d", addrArgs(p.Addr()), p.Bits()) }
+
+// ---------------------------------------------------------------------------
+// The rest of the profile and device records
+// ---------------------------------------------------------------------------
+
+// attrFlags: one letter per switch of agd.Profile / agd.Device that a request
+// handler has in its hands next to the access settings.  The statement
+// quantifies over every profile, so over every value of these; none of them is
+// an access setting.
+//
+//	F Profile.FilteringEnabled off     f Device.FilteringEnabled off
+//	Q Profile.QueryLogEnabled off      I Profile.IPLogEnabled off
+//	X Profile.Deleted                  A Profile.AutoDevicesEnabled
+//	P Block{ChromePrefetch,FirefoxCanary,PrivateRelay}
+//	M Profile.BlockingMode REFUSED     S FilterConfig: parental, safe browsing, rule lists on
+//	G Profile.Ratelimiter is agd.GlobalRatelimiter (no rate limit of its own)
+//	l Device.LinkedIP = the client     d Device.DedicatedIPs set
+//	a Device.Auth enabled, DoH only
+const attrFlags = "FfQIXAPMSGlda"
+
+// stackFlags are the switches the stack campaign varies: those the real device
+// finder does not act on itself (it treats a deleted profile as no profile:
+// the stack campaign has a case of its own for that).
+const stackFlags = "FfQIAPMSG"
+
+// splitDev splits a device-result name into the result and the flags.
+func splitDev(dev string) (base, flags string) {
+	parts := strings.Split(dev, ":")
+	switch {
+	case parts[0] == "ok" && len(parts) == 3:
+		return parts[0] + ":" + parts[1], parts[2]
+	case parts[0] == "empty" && len(parts) == 2:
+		return parts[0], parts[1]
+	}
+
+	return dev, ""
+}
+
+// withFlags adds flags to a device-result name that has a profile.
+func withFlags(dev, flags string) string {
+	base, _ := splitDev(dev)
+	if flags == "" || !(strings.HasPrefix(base, "ok:") || base == "empty") {
+		return base
+	}
+
+	return base + ":" + flags
+}
+
+// genFlags draws a set of switches: usually none or one, the two filtering
+// switches in every combination, sometimes many.
+func genFlags(rng *rand.Rand, pool string) string {
+	switch x := rng.IntN(10); {
+	case x < 4:
+		return ""
+	case x < 6:
+		return pool[rng.IntN(len(pool)):][:1]
+	case x < 8:
+		return []string{"F", "f", "Ff"}[rng.IntN(3)]
+	}
+	var b strings.Builder
+	for _, c := range pool {
+		if rng.IntN(3) == 0 {
+			b.WriteRune(c)
+		}
+	}
+
+	return b.String()
+}
+
+// applyFlags returns copies of the profile and the device with the switches
+// named by flags set; client is the address of the request's client.
+func applyFlags(p *agd.Profile, d *agd.Device, flags string, client netip.Addr) (*agd.Profile, *agd.Device) {
+	if flags == "" {
+		return p, d
+	}
+	pc, dc := *p, *d
+	for _, c := range flags {
+		switch c {
+		case 'F':
+			pc.FilteringEnabled = false
+		case 'f':
+			dc.FilteringEnabled = false
+		case 'Q':
+			pc.QueryLogEnabled = false
+		case 'I':
+			pc.IPLogEnabled = false
+		case 'X':
+			pc.Deleted = true
+		case 'A':
+			pc.AutoDevicesEnabled = true
+		case 'P':
+			pc.BlockChromePrefetch, pc.BlockFirefoxCanary, pc.BlockPrivateRelay = true, true, true
+		case 'M':
+			pc.BlockingMode = &dnsmsg.BlockingModeREFUSED{}
+		case 'S':
+			pc.FilterConfig = &filter.ConfigClient{Custom: &filter.ConfigCustom{},
+				Parental:     &filter.ConfigParental{Enabled: true, AdultBlockingEnabled: true, SafeSearchGeneralEnabled: true},
+				RuleList:     &filter.ConfigRuleList{Enabled: true},
+				SafeBrowsing: &filter.ConfigSafeBrowsing{Enabled: true, DangerousDomainsEnabled: true}}
+		case 'G':
+			pc.Ratelimiter = agd.GlobalRatelimiter{}
+		case 'l':
+			dc.LinkedIP = client
+		case 'd':
+			dc.DedicatedIPs = []netip.Addr{netip.MustParseAddr("192.0.2.2")}
+		case 'a':
+			dc.Auth = &agd.AuthSettings{PasswordHash: agdpasswd.AllowAuthenticator{}, Enabled: true, DoHAuthOnly: true}
+		default:
+			panic("verif: unknown device flag " + string(c))
+		}
+	}
+
+	return &pc, &dc
+}
 
 // ---------------------------------------------------------------------------
 // The oracle: the property statement, written out independently
@@ -628,6 +760,17 @@ func sigSuffix(v verdict, q *request) string {
 	}
 	if q.qclass != 0 {
 		s += "+class"
+	}
+	if _, flags := splitDev(q.dev); flags != "" {
+		// The switches that make people think "nothing applies to this profile" get their own class.
+		switch {
+		case strings.ContainsAny(flags, "Ff"):
+			s += "+filtering-off"
+		case strings.ContainsAny(flags, "QIX"):
+			s += "+logging-off-or-deleted"
+		default:
+			s += "+profile-switches"
+		}
 	}
 
 	return s
@@ -1016,6 +1159,7 @@ func genRequest(rng *rand.Rand, c *cfg, devs []string) (q *request) {
 		ecsLoc: genLoc(rng, c),
 		dev:    devs[rng.IntN(len(devs))],
 	}
+	q.dev = withFlags(q.dev, genFlags(rng, attrFlags))
 	if rng.IntN(8) == 0 {
 		q.qclass = []uint16{dns.ClassCHAOS, dns.ClassHESIOD, dns.ClassANY, dns.ClassNONE, dns.ClassCSNET}[rng.IntN(5)]
 	}
@@ -1176,12 +1320,15 @@ func newFixture(c *cfg, proto agd.Protocol) (f *fixture) {
 
 var errDev = fmt.Errorf("verif: device finder failure")
 
-func (f *fixture) devResult(dev string) agd.DeviceResult {
+func (f *fixture) devResult(dev string, client netip.Addr) agd.DeviceResult {
+	dev, flags := splitDev(dev)
 	switch dev {
 	case "nil":
 		return nil
 	case "empty":
-		return &agd.DeviceResultOK{Device: newDevice(99, netip.Addr{}), Profile: newProfile(99, access.EmptyProfile{}, countingRL{&f.profRL})}
+		p, d := applyFlags(newProfile(99, access.EmptyProfile{}, countingRL{&f.profRL}), newDevice(99, netip.Addr{}), flags, client)
+
+		return &agd.DeviceResultOK{Device: d, Profile: p}
 	case "auth":
 		return &agd.DeviceResultAuthenticationFailure{Err: errDev}
 	case "unk":
@@ -1193,7 +1340,9 @@ func (f *fixture) devResult(dev string) agd.DeviceResult {
 	_, err := fmt.Sscanf(dev, "ok:%d", &k)
 	hlib.Must(err)
 
-	return &agd.DeviceResultOK{Device: newDevice(k, netip.Addr{}), Profile: f.profs[k]}
+	p, d := applyFlags(f.profs[k], newDevice(k, netip.Addr{}), flags, client)
+
+	return &agd.DeviceResultOK{Device: d, Profile: p}
 }
 
 // obs is what one request did, as seen from outside the middleware.
@@ -1206,9 +1355,12 @@ type obs struct {
 	panicked  any
 	// ri is the request information the next stage received, rendered like the
 	// model renders it; dev is the device result in it.
-	ri              string
-	riDev           agd.DeviceResult
-	riLoc           *geoip.Location
+	ri    string
+	riDev agd.DeviceResult
+	riLoc *geoip.Location
+	// riDevSame: the device result the next stage received is the very one the
+	// device finder returned (profile and device with all their switches).
+	riDevSame       bool
 	profRL, errColl int
 	// rlMetrics: events of the rate-limiting stage reported to the metrics.
 	rlMetrics int
@@ -1245,7 +1397,7 @@ func refRI(q *request) string {
 		asn = fmt.Sprint(q.loc.ASN)
 	}
 	host := strings.ToLower(strings.TrimSuffix(q.qname, "."))
-	dev := q.dev
+	dev, _ := splitDev(q.dev)
 	if strings.HasPrefix(dev, "ok") || dev == "empty" {
 		dev = "ok"
 	}
@@ -1254,7 +1406,7 @@ func refRI(q *request) string {
 }
 
 func (f *fixture) serve(ctx context.Context, q *request) (o obs) {
-	f.dev, f.loc, f.cur = f.devResult(q.dev), q.loc, q
+	f.dev, f.loc, f.cur = f.devResult(q.dev, q.eff()), q.loc, q
 	*f.metrics = recMetrics{}
 	f.nextCalls, f.limCalls, f.countCalls, f.nextHadRI, f.nextRI = 0, 0, 0, false, nil
 	f.profRL, f.errColl = 0, 0
@@ -1270,6 +1422,7 @@ func (f *fixture) serve(ctx context.Context, q *request) (o obs) {
 	o.profRL, o.errColl = f.profRL, f.errColl
 	if f.nextRI != nil {
 		o.ri, o.riDev, o.riLoc = riString(f.nextRI), f.nextRI.DeviceResult, f.nextRI.Location
+		o.riDevSame = o.riDev == f.dev
 	}
 	m := f.metrics
 	switch {
@@ -1366,10 +1519,10 @@ func judge(r *hlib.Result, campaign string, c *cfg, q *request, o *obs, replay f
 			r.Violate("unblocked-request-dropped:"+suffix, fmt.Sprintf("%s: no rule rejects this request (%s) but it was not processed "+
 				"normally: next handler calls %d, response %v, request info in context %v, err %v", campaign, v.class, o.next,
 				o.resp != nil, o.hadRI, o.err), replay())
-		} else if want := refRI(q); o.ri != want || o.riLoc != q.loc && geoOverride == nil {
+		} else if want := refRI(q); o.ri != want || o.riLoc != q.loc && geoOverride == nil || !o.riDevSame {
 			r.Violate("unblocked-request-wrong-info:"+suffix, fmt.Sprintf("%s: the next stage received request information [host qtype "+
-				"qclass family addr asn ecs device] %q (location is the client's: %v), the request says %q", campaign, o.ri, o.riLoc == q.loc,
-				want), replay())
+				"qclass family addr asn ecs device] %q (location is the client's: %v, device result is the finder's: %v), the request says %q",
+				campaign, o.ri, o.riLoc == q.loc, o.riDevSame, want), replay())
 		}
 	}
 
@@ -1390,10 +1543,13 @@ func mwCampaign(o *hlib.Opts, r *hlib.Result, m *hlib.Model) {
 		for j := 4 + rng.IntN(16); j > 0; j-- {
 			qs = append(qs, genRequest(rng, c, mwDevs))
 		}
+		// Half of the cases on plain DNS (the only protocol the rate limiter applies to), the rest on
+		// the encrypted protocols: access control is the same on all of them.
 		proto := agd.ProtoDNS
-		if rng.IntN(4) == 0 {
-			proto = agd.ProtoDoT
+		if rng.IntN(2) == 0 {
+			proto = []agd.Protocol{agd.ProtoDoT, agd.ProtoDoH, agd.ProtoDoQ, agd.ProtoDNSCrypt}[rng.IntN(4)]
 		}
+		r.Count(fmt.Sprintf("mw.proto.%v", proto))
 		runMwCase(r, m, "mw", c, qs, proto)
 	}
 }
@@ -1420,6 +1576,14 @@ func runMwCase(r *hlib.Result, m *hlib.Model, campaign string, c *cfg, qs []*req
 				"observed": ob.canon(), "failing_request_index": j, "ops": append([]string{}, lines[:pre+j+1]...)}
 		})
 		r.Count(campaign + ".real." + ob.why)
+		if _, flags := splitDev(q.dev); flags != "" {
+			// Which switches met which verdict: the access decision must be the same with and without them.
+			kind := "other-switches"
+			if strings.ContainsAny(flags, "Ff") {
+				kind = "filtering-off"
+			}
+			r.Count(fmt.Sprintf("%s.switches.%s.%s", campaign, kind, v.class))
+		}
 		if v.blocked {
 			nBlocked++
 		} else if ob.next == 1 {
@@ -1499,7 +1663,10 @@ func tableCampaign(r *hlib.Result, m *hlib.Model) {
 		}
 		c.profs = []*pcfg{p, {}}
 		var qs []*request
-		for _, dev := range []string{"nil", "empty", "auth", "unk", "err", "ok:0"} {
+		// (The profile and device switches: each filtering switch alone, both, the logging switches
+		// and a deleted profile, everything at once.)
+		for _, dev := range []string{"nil", "empty", "auth", "unk", "err", "ok:0", "ok:0:F", "ok:0:f", "ok:0:Ff", "ok:0:QIX",
+			"ok:0:" + attrFlags, "empty:Ff"} {
 			for ecs := 0; ecs < 3; ecs++ {
 				for _, port := range []uint16{0, 4000} {
 					for _, loc := range []*geoip.Location{nil, {ASN: 7}} {
@@ -1513,7 +1680,8 @@ func tableCampaign(r *hlib.Result, m *hlib.Model) {
 		runMwCase(r, m, "table", c, qs, agd.ProtoDNS)
 	}
 	r.Notes = append(r.Notes, fmt.Sprintf("table: all 256 combinations of {family, global subnet, global name, profile allowed/blocked ASN, "+
-		"allowed/blocked subnet, blocked name} x 6 device results x 3 ECS states x port zero/non-zero x location known/unknown = %d requests", n))
+		"allowed/blocked subnet, blocked name} x 12 device results (6 kinds; with a profile: filtering off for the profile, the device, both, "+
+		"logging off and deleted, every switch) x 3 ECS states x port zero/non-zero x location known/unknown = %d requests", n))
 }
 
 // ---------------------------------------------------------------------------
@@ -1711,6 +1879,9 @@ func runStackCase(r *hlib.Result, m *hlib.Model, rng *rand.Rand) {
 	c := genCfg(rng, 2)
 	profRL := 0
 	var cur *request
+	// curFlags: the switches of the profile and device records the profile database returns for the
+	// current request.
+	curFlags := ""
 	// Linked addresses 0..2 belong to profile 0, 3..5 to profile 1.
 	var profs []*agd.Profile
 	for k, p := range c.profs {
@@ -1720,7 +1891,9 @@ func runStackCase(r *hlib.Result, m *hlib.Model, rng *rand.Rand) {
 	pdb.OnProfileByDeviceID = func(_ context.Context, id agd.DeviceID) (*agd.Profile, *agd.Device, error) {
 		for k := range profs {
 			if id == agd.DeviceID(fmt.Sprintf("dev%d", k)) {
-				return profs[k], newDevice(k, netip.Addr{}), nil
+				p, d := applyFlags(profs[k], newDevice(k, netip.Addr{}), curFlags, netip.Addr{})
+
+				return p, d, nil
 			}
 		}
 
@@ -1729,7 +1902,9 @@ func runStackCase(r *hlib.Result, m *hlib.Model, rng *rand.Rand) {
 	pdb.OnProfileByLinkedIP = func(_ context.Context, ip netip.Addr) (*agd.Profile, *agd.Device, error) {
 		for i, l := range linkedIPs {
 			if l == ip {
-				return profs[i/3], newDevice(i/3, ip), nil
+				p, d := applyFlags(profs[i/3], newDevice(i/3, ip), curFlags, ip)
+
+				return p, d, nil
 			}
 		}
 
@@ -1806,6 +1981,16 @@ func runStackCase(r *hlib.Result, m *hlib.Model, rng *rand.Rand) {
 				tlsName = "not!a!device!id." + stack.DeviceDomain
 			}
 		}
+		// The switches of the profile and the device: what the later stages do depends on them, what
+		// access control does must not.
+		q.dev = withFlags(q.dev, genFlags(rng, stackFlags))
+		_, curFlags = splitDev(q.dev)
+		if q.profIdx() >= 0 && rng.IntN(12) == 0 {
+			// A deleted profile is no profile: the real device finder answers "not found", so
+			// the settings of the profile, access included, are nobody's.
+			q.dev, curFlags = "nil", "X"
+			r.Count("stack.deleted-profile")
+		}
 		cur = q
 		limCalls, profRL = 0, 0
 		before := st.Effects.Snapshot()
@@ -1838,6 +2023,9 @@ func runStackCase(r *hlib.Result, m *hlib.Model, rng *rand.Rand) {
 		case v.blocked:
 			nBlocked++
 			r.Count("stack.ref.blocked." + v.class)
+			if curFlags != "" {
+				r.Count("stack.switches.blocked." + v.class)
+			}
 			if out.Resp != nil {
 				r.Violate("blocked-request-answered:"+suffix, fmt.Sprintf("stack: the property rejects this request (%s) but the client "+
 					"received a response with rcode %d", v.class, out.Resp.Rcode), replay())
@@ -1877,9 +2065,17 @@ func runStackCase(r *hlib.Result, m *hlib.Model, rng *rand.Rand) {
 			}
 			// (Only for the Internet class: what the later stages do with other classes is
 			// not this property's business.)
-			if q.profIdx() >= 0 && q.class() == dns.ClassINET && (delta[1] != 1 || delta[2] != 1) {
-				r.Violate("unblocked-request-not-logged:"+suffix, fmt.Sprintf("stack: profile request processed without exactly one query-log "+
-					"entry and billing record: %v", delta), replay())
+			// A profile with its query log switched off is billed and not logged.
+			wantLog := int64(1)
+			if strings.Contains(curFlags, "Q") {
+				wantLog = 0
+			}
+			if q.profIdx() >= 0 && q.class() == dns.ClassINET && (delta[1] != wantLog || delta[2] != 1) {
+				r.Violate("unblocked-request-not-logged:"+suffix, fmt.Sprintf("stack: profile request processed without exactly %d query-log "+
+					"entry and one billing record: %v", wantLog, delta), replay())
+			}
+			if curFlags != "" {
+				r.Count("stack.switches.served")
 			}
 			reached[key] = true
 		}
@@ -1947,10 +2143,24 @@ func seededCases(r *hlib.Result, m *hlib.Model) {
 		{remote: ap("192.0.2.2:4000"), qname: "ok.test.", qtype: dns.TypeA, loc: l(7), dev: "ok:1"},
 		{remote: ap("[::ffff:10.1.2.9]:4000"), qname: "ok.test.", qtype: dns.TypeA, loc: l(7), dev: "nil"},
 		{remote: ap("9.9.9.9:4000"), qname: "ok.test.", qtype: dns.TypeA, loc: nil, ecs: 2, dev: "nil"},
+		// Profile access settings apply whatever the other switches of the profile and the device say:
+		// blocked subnet / ASN / name with filtering off, logging off, profile deleted; allowed over
+		// blocked likewise; and an unrejected request of such a profile is served.
+		{remote: ap("192.0.2.2:4000"), qname: "ok.test.", qtype: dns.TypeA, loc: l(7), dev: "ok:0:F"},
+		{remote: ap("192.0.2.2:4000"), qname: "ok.test.", qtype: dns.TypeA, loc: l(7), dev: "ok:0:f"},
+		{remote: ap("9.9.9.9:4000"), qname: "ok.test.", qtype: dns.TypeA, loc: l(42), dev: "ok:0:Ff"},
+		{remote: ap("9.9.9.9:4000"), qname: "ok.test.", qtype: dns.TypeTXT, loc: l(7), dev: "ok:0:Ff"},
+		{remote: ap("9.9.9.9:4000"), qname: "ok.test.", qtype: dns.TypeTXT, loc: l(7), dev: "ok:0:QI"},
+		{remote: ap("9.9.9.9:4000"), qname: "ok.test.", qtype: dns.TypeTXT, loc: l(7), dev: "ok:0:X"},
+		{remote: ap("9.9.9.9:4000"), qname: "ok.test.", qtype: dns.TypeTXT, loc: l(7), dev: "ok:0:la"},
+		{remote: ap("192.0.2.1:4000"), qname: "ok.test.", qtype: dns.TypeA, loc: l(42), dev: "ok:0:Ff"},
+		{remote: ap("9.9.9.9:4000"), qname: "ok.test.", qtype: dns.TypeA, loc: l(7), dev: "ok:0:Ff"},
+		{remote: ap("10.1.2.9:4000"), qname: "ok.test.", qtype: dns.TypeA, loc: l(7), dev: "ok:1:Ff"},
+		{remote: ap("9.9.9.9:4000"), qname: "x.blk.test.", qtype: dns.TypeA, loc: l(7), dev: "empty:Ff"},
 	}
 	runMwCase(r, m, "seeded", c, qs, agd.ProtoDNS)
+	runMwCase(r, m, "seeded", c, qs, agd.ProtoDoH)
 }
-
 
 // ---------------------------------------------------------------------------
 // Known finding: a one-character pattern makes urlfilter panic
